@@ -686,7 +686,7 @@ func runC02(f lib.Flags, res *lib.Result, drv *lib.Drv, rng *lib.Rand) {
 			if k == "" {
 				k = "custom"
 			}
-			res.Violate("loop-source-error-lost:"+k, fmt.Sprintf("processSegments: the source failed with %q but the pipe was closed cleanly", encx.SourceErr(c.Script.Err).Error()), c)
+			res.Violate("loop-source-error-lost", fmt.Sprintf("processSegments: the source failed with %q but the pipe was closed cleanly", encx.SourceErr(c.Script.Err).Error()), c)
 		}
 		res.Hit("toy." + strings.SplitN(c.Mut, "@", 2)[0])
 		res.Hit("toy.term=" + encx.KV(impl)["term"])
@@ -754,7 +754,7 @@ func replay(f lib.Flags, res *lib.Result, drv *lib.Drv) {
 		res.Count(c.Doc, true)
 		res.Note("replay impl: " + impl)
 		if c.Script.Fails() && encx.KV(impl)["term"] == "ok" {
-			res.Violate("loop-source-error-lost:"+errKindOf(c.Script), "processSegments: the source failed but the pipe was closed cleanly", c)
+			res.Violate("loop-source-error-lost", "processSegments: the source failed but the pipe was closed cleanly", c)
 		}
 		if drv != nil {
 			a, _ := drv.Ask(toyLine(c))
